@@ -313,6 +313,7 @@ func TestVerifC20Helper(t *testing.T) {
 	_, _ = AssetsSetDir(job.Dir)
 	a := Assets()
 	seen := c20ListTmp(job.Dir)
+	t0 := time.Now()
 	c20Mark(fmt.Sprintf("READY %d", os.Getpid()))
 	for i := 0; ; i++ {
 		if i >= len(job.Ops) && !job.Loop {
@@ -346,7 +347,7 @@ func TestVerifC20Helper(t *testing.T) {
 			// a fresh object per call: the singleton keeps the pointer
 			conf = proto.Clone(args[j].conf).(*pb.ClientConf)
 		}
-		c20Mark(fmt.Sprintf("B %d", i))
+		c20Mark(fmt.Sprintf("B %d %d", i, time.Since(t0).Microseconds()))
 		var err error
 		switch op.Kind {
 		case "conf":
@@ -366,7 +367,7 @@ func TestVerifC20Helper(t *testing.T) {
 		if err != nil {
 			ec = strings.ReplaceAll(c20ErrClass(err), " ", "_")
 		}
-		c20Mark(fmt.Sprintf("E %d %s %s", i, vlib.B(err != nil), ec))
+		c20Mark(fmt.Sprintf("E %d %s %s %d", i, vlib.B(err != nil), ec, time.Since(t0).Microseconds()))
 		if job.Loop {
 			continue
 		}
@@ -764,6 +765,29 @@ type c20Env struct {
 	mu        sync.Mutex
 	seq       int
 	cnt       map[string]int // what this run has actually exercised (for the floor at the end)
+	largeDur  []int64        // observed durations (microseconds) of complete multi-megabyte stores on this machine, now
+}
+
+func (e *c20Env) learn(ops []c20Op, marks *c20Marks) {
+	e.mu.Lock()
+	defer e.mu.Unlock()
+	for i, te := range marks.tE {
+		if tb, ok := marks.tB[i]; ok && !marks.errs[i] && c20IsLarge(ops[i%len(ops)]) && te > tb {
+			e.largeDur = append(e.largeDur, te-tb)
+		}
+	}
+}
+
+// largeStoreMicros: the median duration of a multi-megabyte store as observed so far (0: none observed)
+func (e *c20Env) largeStoreMicros() int {
+	e.mu.Lock()
+	defer e.mu.Unlock()
+	if len(e.largeDur) < 3 {
+		return 0
+	}
+	d := append([]int64(nil), e.largeDur...)
+	sort.Slice(d, func(i, j int) bool { return d[i] < d[j] })
+	return int(d[len(d)/2])
 }
 
 func (e *c20Env) count(key string) {
@@ -807,6 +831,7 @@ type c20Marks struct {
 	ended   map[int]bool
 	errs    map[int]bool
 	errCls  map[int]string
+	tB, tE  map[int]int64 // microseconds since the helper was ready
 	reports map[int]map[string]string
 	lastB   int
 	lastE   int
@@ -815,7 +840,7 @@ type c20Marks struct {
 }
 
 func c20ParseMarks(stdout []byte) *c20Marks {
-	m := &c20Marks{began: map[int]bool{}, ended: map[int]bool{}, errs: map[int]bool{}, errCls: map[int]string{}, reports: map[int]map[string]string{}, lastB: -1, lastE: -1}
+	m := &c20Marks{began: map[int]bool{}, ended: map[int]bool{}, errs: map[int]bool{}, errCls: map[int]string{}, tB: map[int]int64{}, tE: map[int]int64{}, reports: map[int]map[string]string{}, lastB: -1, lastE: -1}
 	for _, line := range strings.Split(string(stdout), "\n") {
 		if !strings.HasPrefix(line, "C20MARK ") {
 			continue
@@ -835,6 +860,9 @@ func c20ParseMarks(stdout []byte) *c20Marks {
 				i, _ := strconv.Atoi(f[2])
 				m.began[i] = true
 				m.lastB = i
+				if len(f) > 3 {
+					m.tB[i], _ = strconv.ParseInt(f[3], 10, 64)
+				}
 			}
 		case "E":
 			if len(f) > 3 {
@@ -843,6 +871,9 @@ func c20ParseMarks(stdout []byte) *c20Marks {
 				m.errs[i] = f[3] == "1"
 				if len(f) > 4 {
 					m.errCls[i] = f[4]
+				}
+				if len(f) > 5 {
+					m.tE[i], _ = strconv.ParseInt(f[5], 10, 64)
 				}
 				m.lastE = i
 			}
@@ -993,7 +1024,7 @@ func (e *c20Env) exec(sc *c20Scenario, job *c20Job, root, tag string) (marks *c2
 		return nil, nil, "skip:start-failed:" + err.Error()
 	}
 	kill := job.Loop && sc.KillAfter >= 0
-	trigger := fmt.Sprintf("C20MARK B %d\n", sc.KillAtB)
+	trigger := fmt.Sprintf("C20MARK B %d ", sc.KillAtB)
 	if sc.AtReady {
 		trigger = "C20MARK READY"
 	}
@@ -1013,7 +1044,7 @@ func (e *c20Env) exec(sc *c20Scenario, job *c20Job, root, tag string) (marks *c2
 					pid, _ = strconv.Atoi(f[2])
 				}
 			}
-			if !sent && kill && pid > 0 && (line == trigger || (sc.AtReady && strings.HasPrefix(line, trigger))) {
+			if !sent && kill && pid > 0 && strings.HasPrefix(line, trigger) {
 				trigCh <- pid // before anything else: the delay counts from here
 				sent = true
 			}
@@ -1812,6 +1843,9 @@ func (e *c20Env) run(sc *c20Scenario, kind string) {
 		e.checkSequential(sc, &sc.Job, sc.start(), marks, sys, "")
 		return
 	}
+	if !sc.Strace {
+		e.learn(sc.Job.Ops, marks)
+	}
 	fileSym, present, ok := e.checkKilled(sc, marks, sys)
 	if !ok || len(sc.Then) == 0 {
 		return
@@ -1964,6 +1998,9 @@ func TestVerifC20(t *testing.T) {
 			ops := []c20Op{{Kind: "conf", K: big}, {Kind: "conf", K: c20KOf(r, c20Large)}, {Kind: "conf", K: big + c20nClasses*10}}
 			sc := &c20Scenario{Job: c20Job{Ops: ops, Loop: true}, Init: c20SmallK(r), KillAtB: r.Intn(6)}
 			sc.KillAfter = c20KillDelay(r, ops[0], false)
+			if m := e.largeStoreMicros(); m > 0 && i%4 != 0 {
+				sc.KillAfter = r.Intn(m + m/4 + 1) // anywhere in a store as long as stores take here and now
+			}
 			scs[i] = sc
 		}
 		c20Parallel(4, m, func(i int) { e.run(scs[i], "kill-top-up") })
